@@ -471,6 +471,22 @@ def r051_union(be, rep):
             got.add('mem')
             ok = len(vs) == 1 and isinstance(mem, Obj)
             msg = 'a union with a chosen member makes %d recursive visits (expected exactly 1)' % len(vs)
+            bf = field(mem, 'is_bitfield') if isinstance(mem, Obj) else 0
+            if be.static and isinstance(mem, Obj) and bf != 0:
+                # the static back end writes a scalar with the width of the type it is given: a member that is a bit-field must be merged into its
+                # storage unit with its own width (as in the struct arm), never handed to the scalar arm with mem->ty
+                if bf == 1 and not vs:
+                    got.add('bit-field')
+                    rep.ob('R05.1', '%s:%s:union/chosen-bit-field-member-merged-in-place' % (U, fn), True, '', where=where, facts={'path': ctx.trail})
+                    r054_path(be, it, ctx, [mem], rep, union=True)
+                else:
+                    rep.ob('R05.1', '%s:%s:union/chosen-member-may-be-bit-field' % (U, fn), False,
+                           'the chosen member of a union is written by the scalar arm with the full width of its declared type %s: for a bit-field member '
+                           '(`static union { int a:4; int b; } u = {0xff};`) the whole storage unit receives the unmasked value (ff 00 00 00), the automatic object and gcc '
+                           'store the value converted to the 4-bit field (0f)' % ('although it is a bit-field' if bf == 1 else 'without testing whether it is a bit-field'),
+                           where=where, facts={'path': ctx.trail})
+                cursor_threaded(be, it, ctx, out, rep, 'union')
+                continue
             if ok:
                 v = vs[0]
                 if 'idx' not in mem.fields or not child_is(it, ctx, v, mem.fields['idx']):
@@ -484,7 +500,7 @@ def r051_union(be, rep):
             rep.ob('R05.1', '%s:%s:union/chosen-member' % (U, fn), ok, msg, where=where, facts={'path': ctx.trail})
         if be.static:
             cursor_threaded(be, it, ctx, out, rep, 'union')
-    if got != {'none', 'mem'}:
+    if not {'none', 'mem'} <= got:
         rep.undecided('R05.1', '%s:%s:union' % (U, fn), 'union arm not recognised (paths seen: %s)' % sorted(got))
 
 
@@ -548,8 +564,8 @@ def _branches_on_folded_value(ctx):
     return any(k in deps for k in evs)
 
 
-def r054_path(be, it, ctx, mems, rep):
-    """static bit-field merge on one fully walked struct path"""
+def r054_path(be, it, ctx, mems, rep, union=False):
+    """static bit-field merge on one fully walked struct path (union=True: the chosen member of a union, which lives at offset 0)"""
     init = ctx.root_init
     stores = [e for e in ctx.events if e[0] == 'store']
     for m in mems:
@@ -557,10 +573,10 @@ def r054_path(be, it, ctx, mems, rep):
             continue
         d = describe_member(it, init, m)
         where = _w(be.u, be.fname)
-        if 'offset' not in m.fields:
+        if 'offset' not in m.fields and not union:
             mine = []
         else:
-            addr = lsum(ctx.p_buf, ctx.p_off, m.fields['offset'])
+            addr = lsum(ctx.p_buf, ctx.p_off, m.fields['offset']) if 'offset' in m.fields else lsum(ctx.p_buf, ctx.p_off)
             mine = [s for s in stores if isinstance(s[1], Term) and s[1].op == 'mem' and lin_eq(s[1].args[0], addr)]
         if d.endswith('no-initializer'):
             rep.ob('R05.4', '%s:write_gvar_data:bit-field-without-initializer-untouched' % U, not mine,
@@ -751,6 +767,45 @@ def _bool_value(it, E, ctx, val, e, root_ty=None):
     return True, 'converted', ''
 
 
+_FLOAT_RANK = {'float': 1, 'double': 2, 'long double': 3}
+
+
+def _cast_chain(v):
+    """types of the conversions wrapped around a value, outermost first"""
+    out = []
+    while isinstance(v, Term) and v.op.startswith('cast:'):
+        out.append(v.op[5:].replace('const ', '').replace('volatile ', '').strip())
+        v = v.args[0]
+    return out
+
+
+def _lossy_conversions(v, name, size):
+    """conversions in the cast chain of a stored value that lose values of the destination type class `name` (size bytes): for a floating object
+    a conversion to a floating type of lower precision or to an integer type; for an integer/pointer object a conversion to a narrower integer
+    type or to a floating type with fewer mantissa bits than the object has value bits"""
+    bad = []
+    for t in _cast_chain(v):
+        if name in FLOATS:
+            r = _FLOAT_RANK.get(t)
+            if r is None:
+                if int_type(t) is not None:
+                    bad.append(t)
+                continue
+            if r < _FLOAT_RANK[FLOATS[name]]:
+                bad.append(t)
+        else:
+            it_ = int_type(t)
+            if it_ is not None:
+                bits = 8 if it_[0] == 1 else it_[0]
+                if bits < 8 * size:
+                    bad.append(t)
+            elif t in _FLOAT_RANK:
+                mant = {'float': 24, 'double': 53, 'long double': 64}[t]
+                if mant < 8 * size:
+                    bad.append(t)
+    return bad
+
+
 def _contains(v, t):
     if v is t:
         return True
@@ -829,6 +884,13 @@ def r052_scalars(P, u, E, cat, rep):
                         msg = 'an integer/pointer `%s` is stored as `%s` from %s()' % (name, ct, src[0][1])
                     elif not any(a is e for a in src[0][2]):
                         ok = False; construct = 'store-value'; msg = 'the evaluated expression is not init->expr'
+                    else:
+                        lossy = _lossy_conversions(s[2], name, size)
+                        if lossy:
+                            ok = False; construct = 'store-value-narrowed-through-' + lossy[0].replace(' ', '-')
+                            msg = ('on its way from %s() to the image the value of a `%s` object passes through a conversion to `%s`, which cannot represent every value of the object\'s type: '
+                                   'the static object receives a rounded/truncated value (`static long double x = 0.1L;` keeps 53 of 64 mantissa bits) while the automatic object initialised by '
+                                   'the same expression keeps the full value' % (src[0][1], name, lossy[0]))
             if settle(it, out[1]) is not ctx.p_cur:
                 ok = False; construct = 'cursor'; msg = 'a scalar without address constant changes the relocation cursor'
             rep.ob('R05.2', key + ':' + construct, ok, msg, where=where, facts={'path': ctx.trail})
@@ -922,7 +984,12 @@ def run(P, rep, tier):
                        'Further decided: the member cursor passes over unnamed bit-fields (R05.13, C11 6.7.9p9); the separator protocol of the list walk (R05.14: every element parser '
                        'is entered at the start of an element, `,` is skipped exactly behind an element, also when a walk is continued behind a designated sub-object or brace-elided; '
                        'trailing comma); aggregates without members are initialised without touching children or NULL members (R05.15); a static _Bool object / bit-field receives '
-                       'the converted value (R05.2/R05.4); every lvalue kind of array type is an address constant in eval2 (R05.7).')
+                       'the converted value (R05.2/R05.4); every lvalue kind of array type is an address constant in eval2 (R05.7). '
+                       'Round 7: the value of a static scalar passes through no conversion that loses values of the object\'s type on its way from the evaluator to the image (R05.2 '
+                       'store-value-narrowed) and eval_double folds every node kind in the precision of the node\'s type (R05.20); the chosen member of a static union that is a bit-field is '
+                       'merged with its own width (R05.1 union/...bit-field, R05.4); a string literal enclosed in braces initialises a character array as a whole (R05.6 braced-string-literal, '
+                       'initializer2 run on the token sequence `{ "literal" }`); array designator indices are range-checked as 64-bit values (R05.19); no function writes a type object that '
+                       'other declarations share (R05.18 = C08 R08.6: a typedef of an array of unknown bound must stay incomplete for later initializers).')
     rep.assumptions += ['calloc succeeds', 'loops over members/elements are analysed for 0..2 generic iterations; the facts checked are per-iteration facts',
                         'bit-field members have an integer type of size 1, 2, 4 or 8',
                         'formula rules compare normalised terms (commutativity of | and &); an equivalent rewrite outside that form would be reported',
@@ -960,6 +1027,115 @@ def run(P, rep, tier):
     r0514(P, u, E, rep)
     r0516(P, rep)
     r0517(P, rep, tier)
+    r0518(P, u, rep)
+    r0519(P, u, E, rep)
+    from ..lib_c05b import r_fold_precision
+    r_fold_precision(P, u, E, rep, U)
+
+
+def _fact_holds(ctx, op, a, b):
+    """is the comparison `a op b` (op in < >=) a consequence of one recorded decision of the path? (both spellings, both senses)"""
+    NEG = {'<': '>=', '>=': '<', '>': '<=', '<=': '>'}
+    SWAP = {'<': '>', '>': '<', '<=': '>=', '>=': '<='}
+    ka, kb = vkey(a), vkey(b)
+    for k, truth in ctx.facts.items():
+        if not (isinstance(k, tuple) and len(k) == 4 and k[0] == 'term'):
+            continue
+        o = str(k[1]).split(':')[0]
+        if o not in NEG:
+            continue
+        if not truth:
+            o = NEG[o]
+        if (k[2], k[3]) == (ka, kb) and o == op:
+            return True
+        if (k[2], k[3]) == (kb, ka) and SWAP[o] == op:
+            return True
+    if isinstance(b, int) and op == '>=':
+        bd = ctx.bounds.get(ka)
+        return bool(bd) and bd[0] >= b
+    return False
+
+
+def r0519(P, u, E, rep):
+    """array_designator: the index of `[i]` / `[lo ... hi]` is an integer constant expression of 64 bits; the element it designates is
+    init->children[i], so 0 <= i < array_len must be established for the VALUE OF THE EXPRESSION - a check made on a copy narrowed to int accepts
+    `[0x100000000] = 1` as element 0 (C11 6.7.9p6: the index shall designate an element of the array)"""
+    fn = 'array_designator'
+    rep.rule('R05.19', 'an array designator index is range-checked (0 <= begin <= end < array_len) as the value of its constant expression, not as a copy narrowed to a smaller integer '
+             'type: the element initialised is the one the program designates, an index outside the array is diagnosed', floor=2)
+    it = _cursor_interp(P, u, drop=(fn,))
+    ps = u.params(fn)
+    if len(ps) != 5:
+        raise AnalysisBroken('array_designator no longer takes (rest, tok, ty, begin, end)')
+
+    def mk(ctx):
+        ctx.ty = Obj('Type', lazy=True, label='ty')
+        ctx.b, ctx.e, ctx.slot = _Slot(), _Slot(), _Slot()
+        ctx.b.v = ctx.e.v = None
+        return [_Ref(ctx.slot), Obj('Token', lazy=True, label='tok'), ctx.ty, _Ref(ctx.b), _Ref(ctx.e)]
+    n = 0
+    where = _w(u, fn)
+    for ctx, out in it.explore(fn, mk):
+        if out[0] != 'ret':
+            continue
+        ces = [e[1] for e in ctx.events if e[0] == 'cexpr']
+        alen = field(ctx.ty, 'array_len')
+        rng = len(ces) == 2
+        form = 'range' if rng else 'index'
+        for what, slot in (('begin', ctx.b), ('end', ctx.e)):
+            X = slot.v
+            raw = strip_cast(X)[0]
+            key = '%s:%s:%s' % (U, fn, what if what == 'begin' else form + '-end')
+            want = ces[0] if (what == 'begin' or not rng) else ces[-1]
+            if what == 'end' and not rng:
+                rep.ob('R05.19', key + '-is-begin', X is not None and bool(ces) and raw is want, '`[i] = v` does not designate the one-element range i..i (end is %s)' % show(X), where=where)
+                continue
+            if X is None or not ces or raw is not want or alen is None:
+                rep.undecided('R05.19', key, 'the value handed back as `%s` (%s) is not recognised as the value of the designator\'s constant expression, or ty->array_len is never read' % (what, show(X)), where=where)
+                continue
+            n += 1
+            narrow = [t for t in _cast_chain(X) if int_type(t) is not None and (8 if int_type(t)[0] == 1 else int_type(t)[0]) < 64]
+
+            def checked(v):
+                lo = _fact_holds(ctx, '>=', v, 0)
+                if what == 'end' and rng:
+                    b0 = ctx.b.v
+                    lo = lo or any(_fact_holds(ctx, '>=', v, w) for w in (b0, strip_cast(b0)[0]))
+                return lo and _fact_holds(ctx, '<', v, alen)
+            if checked(raw):
+                rep.ob('R05.19', key + ':checked-as-evaluated', True, '', where=where)
+            elif narrow and checked(X):
+                rep.ob('R05.19', key + ':checked-after-narrowing-to-' + narrow[0].replace(' ', '-'), False,
+                       'the %s index of an array designator is converted from the 64-bit value of its constant expression to `%s` BEFORE it is compared with 0 and the array length: '
+                       '`int a[4] = {[0x100000000] = 1};` passes the check as index 0 and silently initialises a[0] (gcc: "array index in initializer exceeds array bounds")' % (what, narrow[0]),
+                       where=where, facts={'path': ctx.trail})
+            else:
+                rep.undecided('R05.19', key, 'no comparison of the %s index with 0 / the array length is recognised on an accepting path of array_designator' % what, where=where)
+    if n == 0:
+        rep.undecided('R05.19', '%s:%s' % (U, fn), 'no accepting path recognised')
+
+
+def r0518(P, u, rep):
+    """the size of an object whose bound comes from its initializer (`T a[] = {...}`, a flexible array member) is computed from the declared type
+    object: `typedef int Vec[]; Vec v = {1, 2, 3};` needs the typedef's type to be an array of unknown bound still. Any code that completes or
+    otherwise rewrites a type object it shares with other declarations (a flexible member completed in place, an element type patched) makes a later
+    initializer produce another object than C11 6.7.9p22 prescribes. C08's ownership rule, re-used"""
+    from ..report import Report, reissue
+    from . import c08
+    rep.rule('R05.18', 'the type object a declaration hands to its initializer (array of unknown bound to be completed from the initializer, C11 6.7.9p22; flexible array member) is the '
+             'declared one: no function stores into a Type/Member object that other declarations share - a type is completed or adjusted on a fresh copy (array_of, copy_type), never in '
+             'place (same obligations as C08 R08.6)', floor=30)
+    sub = Report('C08')
+    try:
+        c08.r086(P, u, sub)
+    except AnalysisBroken as e:
+        rep.undecided('R05.18', 'parse.c:scope:type-object-ownership', 'could not be evaluated: %s' % e)
+        return
+    except RecursionError:
+        rep.undecided('R05.18', 'parse.c:scope:type-object-ownership', 'expression nesting too deep for the ownership analysis')
+        return
+    reissue(rep, 'R05.18', sub, 'a later object declared with the same type (e.g. through a typedef of an array of unknown bound) gets a wrong size and loses its initializers: ',
+            keep=lambda o: o['key'].startswith('R08.6:'))
 
 
 def r0517(P, rep, tier):
@@ -2371,6 +2547,7 @@ def r056(P, u, E, cat, rep):
         rep.undecided('R05.6', '%s:initializer2:string-dispatch' % U, 'initializer2 no longer calls string_initializer')
         return
     _r056_dispatch(P, u, E, cat, rep)
+    _r056_braced(P, u, E, cat, rep)
 
 
 CHAR_CATS = ('char', 'uchar', 'short', 'ushort', 'int', 'uint')      # char, char16_t, char32_t / wchar_t and their signed/unsigned twins
@@ -2457,6 +2634,108 @@ def _r056_dispatch(P, u, E, cat, rep):
                    'do not store the code units of the literal' % ('/'.join(chs), out[0], [e[1] for e in subs]), where=where, facts={'path': ctx.trail})
     if n_el == 0 or n_ch == 0:
         rep.undecided('R05.6', '%s:%s:string-literal' % (U, fn), 'string dispatch of initializer2 not recognised (paths for non-character element types %d, for character types %d)' % (n_el, n_ch))
+
+
+def _r056_braced(P, u, E, cat, rep):
+    """C11 6.7.9p14: "an array of character type may be initialized by a character string literal, OPTIONALLY ENCLOSED IN BRACES". initializer2 is
+    run on the concrete token sequence `{ "literal" }` (and `{ "literal" , }`) for an array of every character class; array_initializer1 and the token
+    helpers are interpreted, the element parsers are cut: the literal must reach string_initializer together with the array's initializer; reaching
+    initializer2 of element 0 means the ADDRESS of the literal initialises the first character"""
+    fn = 'initializer2'
+    subs_of = ('string_initializer', 'array_initializer2', 'struct_initializer1', 'struct_initializer2', 'union_initializer', 'designation', 'skip_excess_element')
+
+    def sp_of(it, t):
+        t = settle(it, t)
+        return t.meta.get('sp') if isinstance(t, Obj) else None
+
+    def m_equal(it, ctx, n, a):
+        sp = sp_of(it, a[0])
+        if sp is None or not isinstance(a[1], str):
+            raise AnalysisBroken('equal(%s, %s) at line %d on a token outside the modelled sequence' % (show(a[0]), show(a[1]), n.line))
+        return 1 if sp == a[1] else 0
+
+    def m_skip(it, ctx, n, a):
+        t = settle(it, a[0])
+        if sp_of(it, t) != a[1]:
+            ctx.emit('sub', 'skip-mismatch', a, n.line)
+        return it.read_field(t, 'next', None)
+
+    def m_consume(it, ctx, n, a):
+        t = settle(it, a[1])
+        hit = sp_of(it, t) == a[2]
+        if isinstance(a[0], _Ref):
+            a[0].place.set(it, it.read_field(t, 'next', None) if hit else t)
+        return 1 if hit else 0
+
+    def h_sub(name):
+        def f(it, ctx, n, a):
+            # an element parser consumes the literal: the walk continues behind it
+            t = settle(it, a[1]) if len(a) > 1 else None
+            if isinstance(a[0], _Ref) and isinstance(t, Obj):
+                a[0].place.set(it, it.read_field(t, 'next', None))
+            ctx.emit('sub', name, a, n.line)
+            return None
+        return f
+    def m_excess(it, ctx, n, a):
+        ctx.emit('sub', 'skip_excess_element', a, n.line)
+        t = settle(it, a[0])
+        return it.read_field(t, 'next', None) if isinstance(t, Obj) else 0
+    models = {'equal': m_equal, 'skip': m_skip, 'consume': m_consume}
+    models.update({nm: h_sub(nm) for nm in subs_of})
+    models['skip_excess_element'] = m_excess
+    n_ok = 0
+    for trailing in (False, True):
+        it = TInterp(P, u, {'models': models, 'cut': {'initializer2': h_sub('initializer2')}, 'opaque': ['add_type', 'count_array_init_elements', 'new_initializer', 'array_of'],
+                            'lazy_field': children_hook(), 'track_stores': True, 'loop_limit': 3})
+
+        def mk(ctx, trailing=trailing):
+            init = Obj('Initializer', lazy=True, label='init')
+            ty = Obj('Type', lazy=True, label='init.ty')
+            ty.fields['kind'] = E['TY_ARRAY']
+            ty.fields['base'] = type_cell(cat, 'init.ty.base', only=CHAR_CATS)
+            ty.fields['array_len'] = 4          # `char s[4] = {"abc"};` (an array of unknown bound is completed by string_initializer itself)
+            init.fields['ty'] = ty
+            init.fields['is_flexible'] = 0
+            sps = ['{', None] + ([','] if trailing else []) + ['}', ';']
+            toks = []
+            for i, sp in enumerate(sps):
+                t = Obj('Token', lazy=True, label='tok%d' % i)
+                t.meta['sp'] = sp if sp is not None else '"literal"'
+                t.fields['kind'] = E['TK_STR'] if sp is None else E['TK_PUNCT']
+                toks.append(t)
+            for a, b in zip(toks, toks[1:]):
+                a.fields['next'] = b
+            ctx.root_init, ctx.toks = init, toks
+            ctx.slot = _Slot()
+            return [_Ref(ctx.slot), toks[0], init]
+        form = 'braced-string-literal' + ('-with-trailing-comma' if trailing else '')
+        key = '%s:%s:%s/array-of-character-elements' % (U, fn, form)
+        where = _w(u, fn)
+        try:
+            res = list(it.explore(fn, mk))
+        except AnalysisBroken as ex:
+            rep.undecided('R05.6', key, 'the parse of `{ "literal" }` is not interpretable: %s' % ex, where=where)
+            continue
+        for ctx, out in res:
+            init, lit = ctx.root_init, ctx.toks[1]
+            subs = [e for e in ctx.events if e[0] == 'sub']
+            whole = [e for e in subs if e[1] == 'string_initializer' and len(e[2]) >= 3 and settle(it, e[2][1]) is lit and settle(it, e[2][2]) is init]
+            elem = [e for e in subs if e[1] in ('initializer2', 'skip_excess_element') and len(e[2]) >= 2 and lit in [settle(it, x) for x in e[2][:2]]]
+            if whole and not elem and out[0] == 'ret':
+                n_ok += 1
+                good = settle(it, ctx.slot.v) is ctx.toks[-1] and not [e for e in subs if e[1] == 'skip-mismatch']
+                rep.ob('R05.6', key + ('/string-initializer' if good else '/closing-brace-not-consumed'), good,
+                       'after the braced string literal the parse does not resume behind the closing brace', where=where, facts={'path': ctx.trail})
+            elif elem:
+                n_ok += 1
+                rep.ob('R05.6', key + '/literal-initialises-the-first-element', False,
+                       'a string literal enclosed in braces for an array of character type (C11 6.7.9p14 allows the braces: `char s[] = {"abc"};`, `char l[5] = {"ab"};`) is parsed as a list of '
+                       'elements: the literal becomes the initializer of the FIRST CHARACTER, which receives the low byte of the literal\'s address, and an array of unknown bound gets length 1 '
+                       '(gcc: sizeof s == 4, s[0] == \'a\')', where='%s:%d' % (U, elem[0][3]), facts={'path': ctx.trail})
+            else:
+                rep.undecided('R05.6', key, 'the literal of `{ "literal" }` reaches neither string_initializer nor an element parser (outcome %s, nested parses %s)' % (out[0], [e[1] for e in subs]), where=where)
+    if n_ok == 0:
+        rep.undecided('R05.6', '%s:%s:braced-string-literal' % (U, fn), 'no path recognised')
 
 
 # ------------------------------------------------------------------------------------------------
